@@ -37,6 +37,15 @@ register('C05', 'p_pgp', 'c05',
          'status lines the implementation saw (mocked Popen) and on the status real gpg printed.',
          ORACLE + ['GnuPG: EXPKEYSIG/REVKEYSIG/GOODSIG/VALIDSIG/TRUST_* are printed as documented in doc/DETAILS; an isolated GNUPGHOME confines key lookup'])
 
+register('C17', 'p_hash', 'c17',
+         'contents of every length 0..300, 65534..65538, 1048574..1048578 and random longer ones x size hints {0, true, -1, +1, half, double, around 1 MiB} '
+         'x read schedules (none, random cuts, every byte, cuts at the 64 KiB boundaries) served by a scheduled file object or a real BufferedReader over a '
+         'short-read raw stream, x 1-4 hashlib names (+ __size__); reference = hashlib one-shot and coreutils; all ten Manifest names and unknown/unsupported '
+         'names through get_file_metadata; non-trivial = distinct (length, cuts, hint)',
+         'Theorems in Properties/C17.v; the executable model runs with a digest table computed by hashlib (never by gemato).',
+         ORACLE + ['hashlib objects are streaming (update(a);update(b) = update(a+b)); validated per run for every available algorithm',
+                   'hashlib one-shot and coreutils are the reference for "the standard digest"'])
+
 # ---- MANIFEST metadata per claimed property ------------------------------------------------
 NOT_APPLICABLE = {}
 META = {
@@ -64,6 +73,13 @@ META = {
               'environment always overrides GNUPGHOME. Byte-mutation detection and keyring non-interference are GnuPG behaviour, exercised with real gpg.',
    level_note='About the model Model/OpenPGP.v over generated status_prefixes / trust_accepted; tie: mocked-Popen transcripts and real gpg 2.2 runs. '
               'The CLI -s/-P/-K clauses are checked on the implementation (argparse and the loader construction are not modelled yet).'),
+ 'C17': dict(engine='coq+hash', design_ref='DESIGN.md section 5 C17',
+   technique='Coq proof over an abstract streaming hash object (induction on the read schedule) + differential runs against hashlib/coreutils',
+   level_text='Proved in Coq for any streaming hash library, any names, any schedule of non-empty chunks and any size hint: every requested name gets the '
+              'digest of the whole content and __size__ the byte count (C17_digest; also instantiated without premises for the executable table-backed '
+              'instance); unsupported names raise UnsupportedHash; the Manifest-name table equals the GLEP 74 mapping; unknown Manifest names are reported. '
+              '"Equals the standard digest" is carried by the hashlib/coreutils comparison.',
+   level_note='About Model/Hash.v over generated HASH_BUFFER_SIZE/MAX_SLURP_SIZE/manifest_hash_mapping; hashlib is an oracle with the streaming law as an explicit premise.'),
  'C09': dict(engine='coq+text', design_ref='DESIGN.md section 5 C09',
    technique='Coq theorems (totality of the parser result type by induction over lines; per-class rejection lemmas) + differential runs',
    level_text='Proved in Coq for every text: load returns entries, ManifestSyntaxError or ManifestUnsignedData and nothing else; accepted entries '
